@@ -3,6 +3,15 @@
 -- `Bardolph.Props.Cxx` so that one property's broken proof does not disturb another's.
 import Bardolph.Driver.All
 import Bardolph.Audit.Tool
+import Bardolph.Props.C01
+import Bardolph.Props.C02
+import Bardolph.Props.C03
+import Bardolph.Props.C04
+import Bardolph.Props.C05
+import Bardolph.Props.C07
 import Bardolph.Props.C11
+import Bardolph.Props.C14
+import Bardolph.Props.C15
+import Bardolph.Props.C18
 import Bardolph.Props.C19
 import Bardolph.Props.C20
